@@ -144,6 +144,15 @@ fn exec_op_inner(run: &mut Run, op: &Value) -> Value {
             let key = get_str(op, "key");
             let (src, port) = src_addr(fam, key);
             let pid = get_i64(op, "pid") as u32;
+            if get_bool_or(op, "gated", false)
+                && !run
+                    .access_list
+                    .load()
+                    .allows(run.config.access_list.mode, &ids::info_hash(h))
+            {
+                // the socket workers answer with an error and never call the swarm
+                return json!({"ev":"announce_rejected","t":[fam,h],"key":key});
+            }
             let numwant = get_i64(op, "numwant") as i32;
             let deadline = get_i64(op, "deadline") as u32;
             let request = AnnounceRequest {
@@ -205,6 +214,7 @@ fn exec_op_inner(run: &mut Run, op: &Value) -> Value {
             let msgs = drain_msgs(&run.receiver);
             json!({"ev":"announce","t":[fam,h],"key":key,"event":get_str(op,"event"),
                    "left":get_i64(op,"left"),"numwant":numwant,"deadline":deadline,"pid":pid,
+                   "gated":get_bool_or(op, "gated", false),
                    "reply":{"fam":rfam,"seeders":seeders,"leechers":leechers,"peers":peers},
                    "msgs":msgs})
         }
